@@ -44,6 +44,10 @@ func (C14) Explore(x *kernel.Explorer, seed uint64) {
 			f.Arg = int64(r.Intn(4000))<<8 | int64(1<<uint(r.Intn(8)))
 			if r.Chance(1, 8) {
 				f.Kind = "tiny-length"
+			} else if r.Chance(1, 6) {
+				f.Kind, f.Site = "inject", c14Streams[0]
+			} else if r.Chance(1, 8) {
+				f.Kind = "ones-field"
 			} else if r.Chance(1, 8) {
 				f.Kind = "cut"
 			}
